@@ -80,6 +80,20 @@ func excluded(u string, s Settings) bool {
 	return false
 }
 
+// MatchesDomainsCrawl: the configured --domains-crawl entries are naive domains (exact host or sub-domain match).
+func MatchesDomainsCrawl(u string, s Settings) bool {
+	h := HostOf(u)
+	if i := strings.IndexByte(h, ':'); i >= 0 {
+		h = h[:i]
+	}
+	for _, d := range s.DomainsCrawl {
+		if h == d || strings.HasSuffix(h, "."+d) {
+			return true
+		}
+	}
+	return false
+}
+
 func retried(kind int) bool {
 	return kind == 0 || kind >= 500 || kind == 408 || kind == 425 || kind == 429
 }
@@ -209,17 +223,18 @@ func Reference(site Site, s Settings, sp SeedPlan, seen SeenStore) Expect {
 				next = append(next, refNode{url: r.Loc, depthNR: n.depthNR, redirects: n.redirects + 1, seedType: true, hops: n.hops})
 			case "status":
 			default:
-				if n.depthNR > 2 {
+				dc := len(s.DomainsCrawl) > 0
+				if !dc && n.depthNR > 2 {
 					if len(r.Assets) > 0 {
 						e.Cut["depth-limit"] = true
 					}
 					continue
 				}
-				if n.depthNR == 1 && r.Kind == "html" {
+				if !dc && n.depthNR == 1 && r.Kind == "html" {
 					e.Cut["html-as-asset-not-expanded"] = true
 					continue
 				}
-				if s.DisableAssets && (n.hops >= s.MaxHops) {
+				if s.DisableAssets && !dc && (n.hops >= s.MaxHops) {
 					continue
 				}
 				if !s.DisableAssets && r.Kind != "bin" {
@@ -232,12 +247,16 @@ func Reference(site Site, s Settings, sp SeedPlan, seen SeenStore) Expect {
 				}
 				if r.Kind == "html" {
 					e.Pages[n.url] = n.hops
-					if n.hops < s.MaxHops {
-						for _, l := range r.Links {
+					for _, l := range r.Links {
+						switch {
+						case dc && MatchesDomainsCrawl(l, s):
+							e.Outlinks = append(e.Outlinks, ExpOutlink{URL: l, Via: n.url, Hops: 0})
+							e.Cut["domains-crawl-hops-reset"] = true
+						case n.hops < s.MaxHops:
 							e.Outlinks = append(e.Outlinks, ExpOutlink{URL: l, Via: n.url, Hops: n.hops + 1})
+						default:
+							e.Cut["max-hops"] = true
 						}
-					} else if len(r.Links) > 0 {
-						e.Cut["max-hops"] = true
 					}
 				}
 			}
